@@ -576,7 +576,9 @@ var factWholeEntries = &fact{id: "whole-entries", what: "the list size is 28 plu
 			}
 			return true
 		}
-		isSize := func(v ssa.Value) bool { return ir.FieldID(ir.StripConv(v)) == sigPkg+".SignatureList.Size" }
+		isSize := func(v ssa.Value) bool {
+			return ir.FieldID(ir.StripConv(v)) == sigPkg+".SignatureList.Size" || copiedIntoField(fn, v, sigPkg+".SignatureList.Size")
+		}
 		// (ListSize-28) % Size == 0
 		for _, side := range [][2]ssa.Value{{cmp.X, cmp.Y}, {cmp.Y, cmp.X}} {
 			if k, isK := ir.ConstInt(side[1]); isK && k == 0 {
@@ -592,11 +594,12 @@ var factWholeEntries = &fact{id: "whole-entries", what: "the list size is 28 plu
 			if depth > 6 {
 				return
 			}
-			switch x := ir.StripConv(v).(type) {
+			switch x := ir.StripConv(resolveCell(ir.StripConv(v))).(type) {
 			case *ssa.BinOp:
 				if x.Op == token.MUL {
 					for _, p := range [][2]ssa.Value{{x.X, x.Y}, {x.Y, x.X}} {
-						if q, isQ := ir.StripConv(p[0]).(*ssa.BinOp); isQ && q.Op == token.QUO && isBody(q.X) && isSize(q.Y) && isSize(p[1]) {
+						// the quotient may have been kept in a variable a function literal captures
+						if q, isQ := ir.StripConv(resolveCell(ir.StripConv(p[0]))).(*ssa.BinOp); isQ && q.Op == token.QUO && isBody(resolveCell(ir.StripConv(q.X))) && isSize(q.Y) && isSize(p[1]) {
 							mul = x
 						}
 					}
@@ -607,6 +610,9 @@ var factWholeEntries = &fact{id: "whole-entries", what: "the list size is 28 plu
 		}
 		find(cmp.X, 0)
 		find(cmp.Y, 0)
+		if os.Getenv("VCHECK_DEBUG") == "whole" {
+			fmt.Fprintf(os.Stderr, "whole-entries %s: %s vs %s mul=%v\n", name(fn), affineOf(cmp.X, 0), affineOf(cmp.Y, 0), mul != nil)
+		}
 		if mul == nil {
 			return false
 		}
@@ -626,6 +632,43 @@ var factWholeEntries = &fact{id: "whole-entries", what: "the list size is 28 plu
 		}
 		return d.equal(want) || d.equal(want.scale(-1))
 	}}
+
+// copiedIntoField: v is a load of a field of a local header structure, and the
+// function stores a load of that same field (same structure) into the named
+// field: the two are one number read once (hdr.Size tested, s.Size = hdr.Size).
+func copiedIntoField(fn *ssa.Function, v ssa.Value, target string) bool {
+	src := ir.StripConv(v)
+	id := ir.FieldID(src)
+	if id == "" {
+		return false
+	}
+	addrOf := func(x ssa.Value) ssa.Value {
+		if ld, ok := ir.StripConv(x).(*ssa.UnOp); ok && ld.Op == token.MUL {
+			return ld.X
+		}
+		return nil
+	}
+	sa := addrOf(src)
+	if sa == nil {
+		return false
+	}
+	if _, isLocal := ir.RootOf(sa).(*ssa.Alloc); !isLocal {
+		return false
+	}
+	found := false
+	for _, f := range withAnon(fn) {
+		instrsOf(f, func(i ssa.Instruction) {
+			st, ok := i.(*ssa.Store)
+			if !ok || ir.FieldID(st.Addr) != target {
+				return
+			}
+			if va := addrOf(st.Val); va != nil && ir.FieldID(ir.StripConv(st.Val)) == id && ir.RootOf(va) == ir.RootOf(sa) {
+				found = true
+			}
+		})
+	}
+	return found
+}
 
 var factKnownType = &fact{id: "known-type", what: "the list's signature type is one of the handled types (unsupported types are errors)",
 	direct: func(c *Ctx, fn *ssa.Function, ce ir.CondEdge) bool {
@@ -1107,6 +1150,9 @@ func (c *Ctx) wireLeaves(fn *ssa.Function, isRead bool) ([]leaf, string) {
 	opaque := c.codecOpaque(fn, 0)
 	if opaque == "" {
 		if ls := c.leavesOf(fn, isRead, 0); len(ls) > 0 {
+			if isRead {
+				renameScratchLeaves(fn, ls)
+			}
 			return ls, ""
 		}
 	}
@@ -1321,6 +1367,56 @@ func (c *Ctx) ruleEOFNotSuccess(rule string, rl *ssa.Function, skip ...*ssa.Func
 					}
 				}
 			}
+			// the end of input before the first byte of a list is not "inside a list":
+			// the read whose error is tested is the first one of the function, and the
+			// function is the list reader itself or is entered before anything was read
+			if src == "input" {
+				var first func(g *ssa.Function, at ssa.Instruction, depth int) bool
+				first = func(g *ssa.Function, at ssa.Instruction, depth int) bool {
+					if depth > 3 {
+						return false
+					}
+					clean := true
+					instrsOf(g, func(i ssa.Instruction) {
+						call, isC := i.(*ssa.Call)
+						if !isC || i == at || !c.isConsumingCall(call, consumers) {
+							return
+						}
+						if call.Block() == at.Block() && precedes(call, at) || call.Block() != at.Block() && reachableFrom(g, call.Block(), at.Block()) {
+							clean = false
+						}
+					})
+					if !clean {
+						return false
+					}
+					if g == rl {
+						return true
+					}
+					sites := 0
+					ok := true
+					for _, h := range fns {
+						instrsOf(h, func(i ssa.Instruction) {
+							if call, isC := i.(*ssa.Call); isC && ir.Callee(call) == g {
+								sites++
+								if !first(h, call, depth+1) {
+									ok = false
+								}
+							}
+						})
+					}
+					return ok && sites > 0
+				}
+				var reads []*ssa.Call
+				for v := range c.sliceOf(ev) {
+					if call, isC := v.(*ssa.Call); isC && call.Parent() == g && c.isConsumingCall(call, consumers) {
+						reads = append(reads, call)
+					}
+				}
+				if len(reads) == 1 && first(g, reads[0], 0) {
+					c.R.Okf(rule, name(g), construct, c.IPos(ce.If), "the io.EOF tested belongs to the first read of a list: the end of input between lists")
+					continue
+				}
+			}
 			switch src {
 			case "input":
 				c.R.Violf(rule, name(g), construct, c.IPos(ce.If), "an end of input inside a list is an error", "on the branch where the error of a read from the caller's stream matches io.EOF the function returns successfully at "+succeeds+": a list cut short at that point is accepted with what was read so far")
@@ -1333,5 +1429,68 @@ func (c *Ctx) ruleEOFNotSuccess(rule string, rl *ssa.Function, skip ...*ssa.Func
 	}
 	if n == 0 {
 		c.R.Okf(rule, name(rl), "scan", c.Pos(rl.Pos()), "the list decoder and its helpers contain no test for io.EOF")
+	}
+}
+
+// reachableFrom: block to can be reached from block from (from != to).
+func reachableFrom(fn *ssa.Function, from, to *ssa.BasicBlock) bool {
+	seen, _ := ir.Reach(fn, from, nil)
+	return seen[to.Index]
+}
+
+// renameScratchLeaves: a structure decoded as a whole into a local scratch
+// value whose fields are then copied, one by one, into fields of the result is
+// named by where each field ends up (raw.TimeLow -> EFIGUID.Data1).
+func renameScratchLeaves(fn *ssa.Function, ls []leaf) {
+	for k := range ls {
+		l := &ls[k]
+		if l.src == nil || l.src.val == nil {
+			continue
+		}
+		a, isA := ir.StripIface(l.src.val).(*ssa.Alloc)
+		if !isA {
+			continue
+		}
+		st, isStruct := a.Type().Underlying().(*types.Pointer).Elem().Underlying().(*types.Struct)
+		if !isStruct {
+			continue
+		}
+		for i := 0; i < st.NumFields(); i++ {
+			nm := "." + st.Field(i).Name()
+			cut := -1
+			if strings.HasSuffix(l.id, nm) {
+				cut = len(l.id) - len(nm)
+			} else if j := strings.Index(l.id, nm+"."); j >= 0 {
+				cut = j
+			}
+			if cut < 0 {
+				continue
+			}
+			rest := l.id[cut+len(nm):]
+			dest := ""
+			for _, f := range withAnon(fn) {
+				instrsOf(f, func(in ssa.Instruction) {
+					s, ok := in.(*ssa.Store)
+					if !ok || ir.FieldID(s.Addr) == "" {
+						return
+					}
+					ld, ok := ir.StripConv(s.Val).(*ssa.UnOp)
+					if !ok || ld.Op != token.MUL {
+						return
+					}
+					if fa, ok := ld.X.(*ssa.FieldAddr); ok && fa.X == ssa.Value(a) && fa.Field == i {
+						if dest == "" {
+							dest = ir.FieldID(s.Addr)
+						} else if dest != ir.FieldID(s.Addr) {
+							dest = "-"
+						}
+					}
+				})
+			}
+			if dest != "" && dest != "-" {
+				l.id = dest + rest
+			}
+			break
+		}
 	}
 }
